@@ -39,6 +39,18 @@ def observe_init(ss, consistent=True):
     if raised:
         return dict(e="init", raised=True, raised_text=raised, bus_av_kept=True, handover_exact=True, test_ok=False, residual_small=False,
                     exit_bumped=True, consistent=consistent, bus_injection_kept=True, shares_sum_one=True)
+    # the property's precondition "inside all limiter ranges": every limiter of the dynamic models reports "inside"
+    inside = True
+    from andes.core.discrete import Limiter
+    for mdl in ss.exist.tds.values():
+        if mdl.n == 0:
+            continue
+        for dsc in mdl.discrete.values():
+            if isinstance(dsc, Limiter) and dsc.enable:
+                zi = np.atleast_1d(dsc.zi)
+                if len(zi) == mdl.n and not np.all(zi == 1):
+                    inside = False
+    consistent = bool(consistent and inside)
     refs = _dyn_refs(ss)
     online = {}
     sums = {}
@@ -139,19 +151,37 @@ def flat_run(ss, tf=1.0):
     return dict(e="flat", init_ok=bool(init_ok), run_ok=ok, stays=bool(drift <= 1e-3), drift_ppm=int(min(drift * 1e6, 2e9)), worst=worst)
 
 
+OFFLINE_GROUPS = ("Exciter", "TurbineGov", "PSS", "FreqMeasurement", "PhasorMeasurement", "VoltComp")
+
+
 def stock(sc):
-    ss = load_case(sc["case"])
+    kw = {}
+    if sc.get("pq_weights"):
+        # the share of constant power / current / impedance of the static loads after initialisation (documented PQ options)
+        w = sc["pq_weights"]
+        kw["config_option"] = ["PQ.pq2z=0"] + ["PQ.%s=%s" % (k, v) for k, v in sorted(w.items())]
+    ss = load_case(sc["case"], **kw)
+    if sc.get("offline"):
+        # one controller / measurement device of the named model is out of service (status given in the data)
+        mdl = ss.models[sc["offline"]]
+        if mdl.n == 0:
+            return dict(sid=sc["sid"], skipped="no device")
+        mdl.alter("u", mdl.idx.v[0], 0)
     if not ss.PFlow.run():
         return dict(sid=sc["sid"], skipped="pflow did not converge")
     if len(ss.exist.tds) == 0 or ss.dae.n + sum(m.n for m in ss.exist.tds.values()) == 0:
         return dict(sid=sc["sid"], skipped="no dynamic model")
     # whether stock data are "consistent and inside all limiter ranges" is not known: the clause about them is vacuous here
-    ev = [observe_init(ss, consistent=False)]
+    # a variant of a case that initialises as shipped has consistent data as well: a controller out of service leaves its
+    # machine with constant input, load weights that add up to one draw the power-flow power at the power-flow voltage
+    ev = [observe_init(ss, consistent=bool(sc.get("baseline_ok", False)))]
     if not ev[0]["raised"] and ev[0]["test_ok"] and sc.get("probes", True):
         ev.extend(verdict_probes(ss))
-    if not ev[0]["raised"]:
+    # a case driven by recorded data (time-series / play-back sources) has no undisturbed run
+    driven = [name for name in ("TimeSeries", "PLBVFU1") if name in ss.models and ss.models[name].n > 0]
+    if not ev[0]["raised"] and not driven and sc.get("flat", True):
         ev.append(flat_run(ss, sc.get("tf", 1.0)))
-    return dict(sid=sc["sid"], ev=ev)
+    return dict(sid=sc["sid"], ev=ev, driven_by_data=driven)
 
 
 def handover(sc):
